@@ -497,6 +497,36 @@ impl<K: Key + 'static, V: Key + 'static> DoubleEndedIterator for OwnedMultimapRa
     }
 }
 
+// Poisons the write transaction unless disarmed. A multimap update modifies a key's collection of
+// values (possibly a subtree of its own, whose replaced pages are queued for freeing as it goes) and
+// then the entry that points at it. The two steps are not error-atomic, so an error or unwind part
+// way through must not leave a half-applied update that a later commit() would persist.
+struct PartialUpdateGuard<'txn> {
+    transaction: &'txn WriteTransaction,
+    disarmed: bool,
+}
+
+impl<'txn> PartialUpdateGuard<'txn> {
+    fn new(transaction: &'txn WriteTransaction) -> Self {
+        Self {
+            transaction,
+            disarmed: false,
+        }
+    }
+
+    fn disarm(&mut self) {
+        self.disarmed = true;
+    }
+}
+
+impl Drop for PartialUpdateGuard<'_> {
+    fn drop(&mut self) {
+        if !self.disarmed {
+            self.transaction.poison();
+        }
+    }
+}
+
 /// A multimap table
 ///
 /// [Multimap tables](https://en.wikipedia.org/wiki/Multimap) may have multiple values associated with each key
@@ -573,6 +603,7 @@ impl<'txn, K: Key + 'static, V: Key + 'static> MultimapTable<'txn, K, V> {
             return Err(StorageError::ValueTooLarge(value_bytes_ref.len() + key_len));
         }
         let get_result = self.tree.get(key.borrow())?;
+        let mut partial_update = PartialUpdateGuard::new(self.transaction);
         let existed = if get_result.is_some() {
             #[allow(clippy::unnecessary_unwrap)]
             let guard = get_result.unwrap();
@@ -587,6 +618,7 @@ impl<'txn, K: Key + 'static, V: Key + 'static> MultimapTable<'txn, K, V> {
                     );
                     let (position, found) = accessor.position::<V>(value_bytes_ref);
                     if found {
+                        partial_update.disarm();
                         return Ok(true);
                     }
 
@@ -721,6 +753,7 @@ impl<'txn, K: Key + 'static, V: Key + 'static> MultimapTable<'txn, K, V> {
         if !existed {
             self.num_values += 1;
         }
+        partial_update.disarm();
 
         Ok(existed)
     }
@@ -739,6 +772,7 @@ impl<'txn, K: Key + 'static, V: Key + 'static> MultimapTable<'txn, K, V> {
         }
         let guard = get_result.unwrap();
         let v = guard.value();
+        let mut partial_update = PartialUpdateGuard::new(self.transaction);
         let existed = match v.collection_type() {
             Inline => {
                 let leaf_data = v.as_inline();
@@ -801,6 +835,7 @@ impl<'txn, K: Key + 'static, V: Key + 'static> MultimapTable<'txn, K, V> {
                     // The value wasn't present, so the subtree is unmodified. Return early to
                     // avoid needlessly copy-on-writing the parent tree (write amplification) and
                     // to avoid flipping the subtree back to inline storage on a logical no-op.
+                    partial_update.disarm();
                     return Ok(false);
                 }
 
@@ -870,6 +905,7 @@ impl<'txn, K: Key + 'static, V: Key + 'static> MultimapTable<'txn, K, V> {
         if existed {
             self.num_values -= 1;
         }
+        partial_update.disarm();
 
         Ok(existed)
     }
@@ -881,6 +917,7 @@ impl<'txn, K: Key + 'static, V: Key + 'static> MultimapTable<'txn, K, V> {
         &mut self,
         key: impl Borrow<K::SelfType<'a>>,
     ) -> Result<MultimapValue<'_, V>> {
+        let mut partial_update = PartialUpdateGuard::new(self.transaction);
         let iter = if let Some(collection) = self.tree.remove(key.borrow())? {
             let mut pages = vec![];
             if matches!(
@@ -921,6 +958,7 @@ impl<'txn, K: Key + 'static, V: Key + 'static> MultimapTable<'txn, K, V> {
                 self.transaction.transaction_guard(),
             )
         };
+        partial_update.disarm();
 
         Ok(iter)
     }
